@@ -126,7 +126,7 @@ def jobs(tier, prop):
             subs.append(sub)
         # longer, hand-picked interleavings (pause at non-zero time, late resume); assets and priorities
         # fixed per pick (an event of asset 0 and one of asset 1, equal priorities), times symbolic
-        picked = ['SSAPACUA', 'SSPAPAUA', 'SAPSAUSA', 'SSACAPUA', 'SAPAUAPAUA', 'SSAPAUPAUA', 'SNpSAUA']
+        picked = ['SSAPACUA', 'SSPAPAUA', 'SAPSAUSA', 'SSACAPUA', 'SAPAUAPAUA', 'SSAPAUPAUA', 'SNpSAUA', 'SPASPAUA', 'SAPASAPAUA']
         if tier == 'thorough':   # measured 170-400 s of one core each; the last three need the 1500 s budget
             picked += ['SSAPASUA', 'SSSAPAUA', 'SNuSAPAA', 'SNcSAPAUA', 'SSSAPASUAUA', 'SSAPSACAUSA', 'SSSAPACAUA']
         for s in picked:
@@ -136,7 +136,8 @@ def jobs(tier, prop):
             pre = []
             for i, k in enumerate(sub['shape']['ops']):
                 if k == 'S' or k[0] == 'N':
-                    pre += [f'a{i} == {nth % 2}', f'p{i} == 5']
+                    # picks that pause the same asset twice keep every event on asset 0
+                    pre += [f"a{i} == {0 if s in ('SPASPAUA', 'SAPASAPAUA') else nth % 2}", f'p{i} == 5']
                     nth += 1
                     if k[0] == 'N' and k != 'Nx':
                         pre.append(f'b{i} == 0')
@@ -152,7 +153,7 @@ def jobs(tier, prop):
                 continue
             subs.append(make_sub('c01:' + '.'.join(seq), ['A'] + list(seq) + ['R']))
         picked = [['S', 'S', 'S', 'R'], ['S', 'F', 'S', 'T', 'T', 'T'], ['S', 'S', 'R', 'S', 'R'], ['S', 'Nx', 'R'],
-                  ['S', 'Nu', 'P', 'R', 'R']]
+                  ['S', 'Nu', 'P', 'R', 'R'], ['S', 'P', 'A', 'S', 'P', 'A', 'U', 'S', 'R'], ['S', 'P', 'A', 'S', 'P', 'A', 'U', 'T', 'T']]
         if tier == 'thorough':   # measured 160-400+ s of one core each
             picked += [['S', 'Ns', 'S', 'R', 'R'], ['S', 'Np', 'S', 'R', 'U', 'R'], ['Ns', 'Ns', 'R'], ['S', 'S', 'P', 'R', 'U', 'R'],
                        ['F', 'F', 'S', 'R'], ['S', 'S', 'S', 'S', 'R'], ['S', 'Ns', 'Ns', 'S', 'R'],
@@ -161,13 +162,14 @@ def jobs(tier, prop):
         for kinds in picked:
             sub = make_sub('c01:pick:' + '.'.join(kinds), ['A'] + kinds + ['R'])
             n_ev = sum(1 for k in kinds if k in ('S', 'F') or k[0] == 'N')
-            if n_ev >= 3:
+            same_asset = kinds[:5] == ['S', 'P', 'A', 'S', 'P']
+            if n_ev >= 3 or same_asset:
                 # three or more events: assets alternate 0/1 and integer priorities are fixed per event
                 # (two equal, one higher), so that times, run lengths and weights carry the symbolic part
                 nth, pre = 0, []
                 for i, k in enumerate(sub['shape']['ops']):
                     if k in ('S', 'F') or k[0] == 'N':
-                        pre.append(f'a{i} == {nth % 2}')
+                        pre.append(f'a{i} == {0 if same_asset else nth % 2}')
                         if k != 'F':
                             pre.append(f'p{i} == {[5, 5, 7, 5][nth % 4]}')
                         if k[0] == 'N' and k not in ('Nx',):
